@@ -39,13 +39,14 @@ pub fn decompress_merkle_proofs<F: RichField, H: Hasher<F>>(
     height: usize,
     cap_height: usize,
 ) -> Vec<MerkleProof<F, H>> {
-    crate::hash::path_compression::decompress_merkle_proofs(
+    crate::hash::path_compression::try_decompress_merkle_proofs(
         leaves_data,
         leaves_indices,
         compressed_proofs,
         height,
         cap_height,
     )
+    .expect("Malformed compressed Merkle proofs.")
 }
 
 /// See `plonk::vanishing_poly::eval_vanishing_poly`.
